@@ -182,11 +182,16 @@ type c08GroupParams struct {
 	Maxpend   int
 	Dotu      bool
 	Split     bool // group members in separate writes
+	Locked    bool // the implementation holds a lock of its own across each operation, answer included
 	P         int
 }
 
 func (p c08GroupParams) name() string {
-	return fmt.Sprintf("sharedtag group=%d firstgated=%v others=%d maxpend=%d dotu=%v split=%v", p.Group, p.FirstGate, p.Others, p.Maxpend, p.Dotu, p.Split)
+	n := fmt.Sprintf("sharedtag group=%d firstgated=%v others=%d maxpend=%d dotu=%v split=%v", p.Group, p.FirstGate, p.Others, p.Maxpend, p.Dotu, p.Split)
+	if p.Locked {
+		n += " implementation-holds-its-lock-while-answering"
+	}
+	return n
 }
 
 func c08Group(p c08GroupParams) Scenario {
@@ -196,7 +201,7 @@ func c08Group(p c08GroupParams) Scenario {
 	var phase1 map[uint16]int
 	const gTag = 300
 	body := func() {
-		s = newSess(SrvOpt{Msize: 256, Dotu: p.Dotu, Maxpend: p.Maxpend})
+		s = newSess(SrvOpt{Msize: 256, Dotu: p.Dotu, Maxpend: p.Maxpend, Locked: p.Locked})
 		group, others = nil, nil
 		for i := 0; i < p.Group; i++ {
 			// reads on distinct fids: the payload identifies the member
@@ -543,6 +548,7 @@ func c08Scenarios(tier string) []Scenario {
 		out = append(out, c08Group(c08GroupParams{Group: 2, FirstGate: false, Others: 0, Maxpend: 1, Split: true, P: 2}))
 		out = append(out, c08Group(c08GroupParams{Group: 3, FirstGate: true, Others: 2, Maxpend: 2, P: 1}))
 		out = append(out, c08Group(c08GroupParams{Group: 3, FirstGate: false, Others: 0, Maxpend: 0, Dotu: true, Split: true, P: 1}))
+		out = append(out, c08Group(c08GroupParams{Group: 2, FirstGate: false, Others: 1, Maxpend: 0, Locked: true, P: 0}), c08Group(c08GroupParams{Group: 3, FirstGate: false, Others: 1, Maxpend: 2, Dotu: true, Locked: true, Split: true, P: 0}))
 		out = append(out, c08AcrossVersion(false, 0, 2), c08AcrossVersion(true, 2, 2))
 		out = append(out, c08FsrvScenarios(0)...)
 		for i, pr := range [][2]string{{"clunk", "stat"}, {"clunk", "clone"}, {"remove", "stat"}, {"clunk", "open"}} {
